@@ -1382,16 +1382,17 @@ static int state_check_process(struct snapraid_state* state, int fix, struct sna
 					}
 
 					/*
-					 * Update parity only if all the blocks have it computed and it's used.
+					 * Update parity only if all the blocks have it computed.
 					 *
 					 * If you check/fix after a partial sync, you do not want to fix parity
 					 * for blocks that are going to have it computed in the sync completion.
 					 *
-					 * For unused parity there is no need to write it, because when fixing
-					 * we already have allocated space for it on parity file creation,
-					 * and its content doesn't matter.
+					 * For unused parity the content doesn't matter, but if it cannot be read
+					 * we write it anyway. Otherwise, a recreated parity file covering only
+					 * unused blocks is never written, and at the end it's truncated again
+					 * at its valid size, resulting in read errors at every following check.
 					 */
-					if (used_parity && valid_parity) {
+					if (valid_parity) {
 						/* update the parity */
 						for (l = 0; l < state->level; ++l) {
 							/* if the parity on disk is wrong */
